@@ -31,6 +31,7 @@ import (
 	"path/filepath"
 	"net/http"
 	"net/http/httptest"
+	"net/url"
 	"reflect"
 	"sort"
 	"strings"
@@ -372,9 +373,13 @@ func verifC12Start(doc []byte) string {
 }
 
 func verifC12Serve(method, path string, body []byte) (int, []byte) {
-	req := httptest.NewRequest(method, "/v3/x", bytes.NewReader(body))
-	req.URL.Path = path
-	req.URL.RawPath = ""
+	// the request line a real client sends: the path percent-escaped ('?', '#', '%', spaces … inside a name),
+	// parsed back by net/http exactly as the server does
+	target := (&url.URL{Path: path}).RequestURI()
+	req := httptest.NewRequest(method, target, bytes.NewReader(body))
+	if req.URL.Path != path {
+		panic("verif: request path does not survive escaping: " + path)
+	}
 	w := httptest.NewRecorder()
 	verifC12Handler.ServeHTTP(w, req)
 	return w.Code, w.Body.Bytes()
@@ -883,7 +888,13 @@ func verifC12GenBody(r *verifutil.Rand, fields []verifC12Field, popular []string
 }
 
 // (the empty name cannot be expressed in a request path: the handlers answer "invalid name")
-var verifC12Names = []string{"cam1", "cam2", "live/a", "proxied", "~^x[0-9]+$", "all_others", "rec", "a b", "../up", "~("}
+// the first verifC12NamesValid can be configuration keys; among them URL-sensitive ones: regexp keys ending in '/',
+// containing "//", "%2F", '?', '#', '+', a space, a trailing '.'
+var verifC12Names = []string{"cam1", "cam2", "live/a", "proxied", "~^x[0-9]+$", "all_others", "rec",
+	"~^live/", "~^a/b/$", "~^x%2Fy", "~^liv?e", "~^a#b", "~^a+b", "~^a b", "~^a//b", "~^end.", "cam.", "~^live",
+	"a b", "../up", "~(", "cam1/", "a?b", "a#b", "a%2Fb"}
+
+const verifC12NamesValid = 18
 
 func verifC12PickName(r *verifutil.Rand, existing []string) string {
 	if len(existing) > 0 && r.Chance(5, 6) {
@@ -911,7 +922,7 @@ func verifC12InitialDoc(r *verifutil.Rand, allowDep bool) []byte {
 	sb.WriteString("paths:\n")
 	used := map[string]bool{}
 	for i, n := 0, 1+r.Intn(4); i < n; i++ {
-		nm := verifC12Names[r.Intn(7)]
+		nm := verifC12Names[r.Intn(verifC12NamesValid)]
 		if used[nm] {
 			continue
 		}
